@@ -221,3 +221,116 @@ pub fn run(args: &[String]) -> i32 {
     println!("{}", json!({"cases":n,"violations":viol,"tool_errors":tool}));
     if tool > 0 { 2 } else { 0 }
 }
+
+// --------------------------------------------------------------------------- large candidate sets (threshold leg)
+
+use rand::rngs::StdRng;
+use rand::seq::SliceRandom;
+use rand::{Rng, SeedableRng};
+
+/// Large ticks through the public engine API on both sides of the scheduler's 1024-entry threshold:
+/// the same candidate set is enqueued in several orders (shuffled, reversed, with repetitions) on both
+/// scheduler kinds; all hashes must be identical, and the receipt of the first run is written as a trace
+/// (rows in receipt order with sort key, footprint resources, decision, blockers) for TickTrace.tla.
+pub fn run_big(args: &[String]) -> i32 {
+    if args.len() < 3 {
+        eprintln!("usage: echo-verif c01-big <trace.ndjson> <seed> <tier>");
+        return 2;
+    }
+    let seed: u64 = args[1].parse().unwrap_or(1);
+    let thorough = args[2] == "thorough";
+    let mut rng = StdRng::seed_from_u64(seed);
+    let mut out = util::Out::create(&args[0]);
+    let progs = vec![
+        Program { kind: "SetAtom".into(), a: "S".into(), b: "S".into(), e: "e0".into(), ty: "tA".into(), ty2: "tA".into(), p: "p0".into(), ..Default::default() },
+        Program { kind: "RetypeByAtt".into(), a: "S".into(), b: "S".into(), e: "e0".into(), ty: "tB".into(), ty2: "tA".into(), p: "p0".into(), ..Default::default() },
+        Program { kind: "SetAtom".into(), a: "S".into(), b: "S".into(), e: "e0".into(), ty: "tA".into(), ty2: "tA".into(), p: "p1".into(), ..Default::default() },
+        Program { kind: "CopyAtt".into(), a: "S".into(), b: "n0".into(), e: "e0".into(), ty: "tA".into(), ty2: "tA".into(), p: "p0".into(), ..Default::default() },
+    ];
+    programs::install(&progs);
+    let sizes: Vec<usize> = if thorough { vec![1, 700, 1023, 1024, 1025, 2048, 5000] } else { vec![1023, 1025] };
+    let mut violations: Vec<Value> = Vec::new();
+    let mut runs = 0usize;
+    for size in sizes {
+        // pre-state: w0 with n0 and `size` nodes x<i>
+        let mut store = warp_core::GraphStore::new(ids::warp("w0"));
+        store.insert_node(ids::node("n0"), warp_core::NodeRecord { ty: ids::ty("tA") });
+        let mut picks: Vec<(usize, String)> = Vec::new();
+        let mut i = 0usize;
+        while picks.len() < size {
+            let lbl = format!("x{i}");
+            store.insert_node(ids::node(&lbl), warp_core::NodeRecord { ty: ids::ty("tA") });
+            // rule 1 / rule 2 touch only their scope; rule 3 conflicts with rule 1 on the same scope;
+            // rule 4 (CopyAtt S -> n0) conflicts with every other rule-4 candidate (all write att(n0))
+            let r = match rng.gen_range(0..10) { 0..=4 => 1, 5..=7 => 2, 8 => 3, _ => 4 };
+            picks.push((r, lbl.clone()));
+            if r == 1 && rng.gen_bool(0.3) && picks.len() < size {
+                picks.push((3, lbl.clone()));
+            }
+            i += 1;
+        }
+        let mut state = WarpState::new();
+        warp_core::verif::upsert_instance(&mut state, warp_core::WarpInstance { warp_id: ids::warp("w0"), root_node: ids::node("n0"), parent: None }, store);
+        let mut reference: Option<Value> = None;
+        for variant in 0..4usize {
+            let mut order = picks.clone();
+            match variant {
+                0 => {}
+                1 => order.reverse(),
+                2 => order.shuffle(&mut rng),
+                _ => {
+                    order.shuffle(&mut rng);
+                    let extra: Vec<_> = order.iter().take(order.len() / 3 + 1).cloned().collect();
+                    order.extend(extra);
+                }
+            }
+            for (kind, kname) in [(SchedulerKind::Radix, "radix"), (SchedulerKind::Legacy, "legacy")] {
+                if !thorough && kname == "legacy" && variant > 1 {
+                    continue;
+                }
+                let seq: Vec<CandJ> = order.iter().map(|(r, n)| CandJ { r: *r, w: "w0".into(), n: n.clone() }).collect();
+                let t = match run_tick(&state, progs.len(), &seq, &Descent::new(), kind, if variant % 2 == 0 { 1 } else { 4 }) {
+                    Ok(Ok(t)) => t,
+                    other => {
+                        violations.push(json!({"kind":"big_tick_failed","detail":format!("size {size} variant {variant} {kname}: {:?}", other.err())}));
+                        continue;
+                    }
+                };
+                runs += 1;
+                match &reference {
+                    None => {
+                        // write the receipt as a trace
+                        out.line(&json!({"event":"reset","size":size}));
+                        for (ix, e) in t.receipt.entries().iter().enumerate() {
+                            let rix = (1..=progs.len()).find(|r| programs::rule_id(*r) == e.rule_id).unwrap_or(0);
+                            let fp = programs::declared_footprint(&progs[rix.max(1) - 1], e.scope.warp_id, &e.scope.local_id);
+                            let name = |n: &warp_core::NodeKey| hex::encode(&n.local_id.0[..6]);
+                            let aname = |a: &warp_core::AttachmentKey| match a.owner {
+                                warp_core::AttachmentOwner::Node(n) => hex::encode(&n.local_id.0[..6]),
+                                warp_core::AttachmentOwner::Edge(e) => format!("e{}", hex::encode(&e.local_id.0[..6])),
+                            };
+                            let mut k: Vec<u32> = e.scope_hash.iter().map(|b| *b as u32).collect();
+                            k.extend(e.rule_id.iter().map(|b| *b as u32));
+                            out.line(&json!({"event":"row","ix":ix,"k":k,
+                                "nr":fp.n_read.iter().map(name).collect::<Vec<_>>(),"nw":fp.n_write.iter().map(name).collect::<Vec<_>>(),
+                                "ar":fp.a_read.iter().map(aname).collect::<Vec<_>>(),"aw":fp.a_write.iter().map(aname).collect::<Vec<_>>(),
+                                "acc":matches!(e.disposition, TickReceiptDisposition::Applied),
+                                "blk":t.receipt.blocked_by(ix).to_vec()}));
+                        }
+                        out.line(&json!({"event":"end","rows":t.receipt.entries().len()}));
+                        reference = Some(t.hashes);
+                    }
+                    Some(h) => {
+                        if *h != t.hashes {
+                            violations.push(json!({"kind":"big_outcome_depends_on_order_or_config",
+                                "detail":format!("size {size} variant {variant} {kname}: {} vs {}", t.hashes, h)}));
+                        }
+                    }
+                }
+            }
+        }
+    }
+    out.finish();
+    println!("{}", json!({"runs":runs,"violations":violations}));
+    0
+}
